@@ -4,7 +4,7 @@
    small-step system, all schedules).  stack/verify/params are arbitrary. *)
 From Coq Require Import List NArith Bool.
 From Dials Require Import Base.Outcome Core.CbMgr Core.Monitor Core.System
-  Core.MonitorProofs Core.SystemProofs.
+  Core.MonitorProofs Core.SystemProofs Core.ObservedProofs.
 Import ListNotations.
 Open Scope N_scope.
 
@@ -71,9 +71,27 @@ Theorem error_event_is_delivered : forall (cfg : Type) (on_new : bool) (cst : cb
   snd (cb_step on_new true cst (EvErr e old rej)) = [OInv (InvErrGlobal e old rej)].
 Proof. exact @error_event_is_delivered_l. Qed.
 
+(* observed_are_installed, every schedule: whatever config a program observes
+   at some event of the history (obs_configs: the pair returned by a
+   View/ViewVersion read, received from or sent on Events, returned by
+   EnableVerification, or passed as old or new argument to OnNewConfig, to a
+   registered callback - catch-up included - or as current config to
+   OnWatchedError) is the pair published by Config or the pair of a Store that is
+   earlier in the history; with installed_verified: it has passed Verify *)
+Theorem observed_are_installed : forall (cfg sv : Type) (stack : list sv -> option cfg) (verify : cfg -> bool)
+    (p : params) (on_new on_err : bool) (cbcap : N) (inits : list sv) (watching : list bool)
+    (s0 : sys cfg sv) (ls : list (label sv)) (s : sys cfg sv)
+    (l1 : list (gevent cfg sv)) (g : gevent cfg sv) (l2 : list (gevent cfg sv)) (v : vcfg cfg),
+  snd (sys_init stack verify p inits watching) = Ok s0 ->
+  run stack verify p on_new on_err cbcap s0 ls = Some s ->
+  s_log s = l1 ++ g :: l2 -> In v (obs_configs g) ->
+  v = s_value s0 \/ In v (stores_of (mon_hist l1)).
+Proof. exact @observed_are_installed_l. Qed.
+
 Print Assumptions installed_verified.
 Print Assumptions installed_verified_from.
 Print Assumptions config_rejects_invalid_initial.
 Print Assumptions config_verifies_initial.
 Print Assumptions rejected_changes_nothing.
 Print Assumptions error_event_is_delivered.
+Print Assumptions observed_are_installed.
